@@ -434,6 +434,14 @@ def gen_slotpreblock(rng):
     return sc
 
 
+def gen_trkreroute(rng):
+    """state trackers with 'reroute' pre-emption: a rerouted customer leaves its node without a service completion"""
+    sc = gen_reroute(rng)
+    sc["tracker"] = rng.choice(["system", "node", "nodeclass", "naive", "matrix", "subset"])
+    sc["observed"] = list(range(sc["N"]))
+    return sc
+
+
 def gen_trkccw(rng):
     """trackers that count customers per class, with customers that change class several times during one wait"""
     sc = gen_ppccw(rng) if rng.random() < 0.5 else gen_ccw(rng)
@@ -1195,6 +1203,7 @@ def gen_stopcount(rng):
 
 
 FAMILIES = {
+    "trkreroute": gen_trkreroute,
     "psprio": gen_psprio,
     "mix2": gen_mix2,
     "exmix": gen_exmix,
